@@ -142,7 +142,7 @@ class KrylovBased:
         if self.N_min < 2:
             raise ValueError('Should perform at least 2 steps.')
         self._cutoff = options.get(
-            'cutoff', np.finfo(psi0.dtype if not isinstance(psi0, list) else psi0[0].dtype).eps * 100, 'real'
+            'cutoff', np.finfo(np.result_type(psi0.dtype if not isinstance(psi0, list) else psi0[0].dtype, np.float32)).eps * 100, 'real'
         )
         if self.E_shift is not None:
             if isinstance(self.H, OrthogonalNpcLinearOperator):
